@@ -56,7 +56,11 @@ func makeReflectValue(t types.Type, v value) value {
 
 // Given a reflect.Value, returns its rtype.
 func rV2T(v value) rtype {
-	return v.(structure)[0].(rtype)
+	// the zero reflect.Value (e.g. an element of make([]reflect.Value, n)) has no rtype yet
+	if rt, ok := v.(structure)[0].(rtype); ok {
+		return rt
+	}
+	return rtype{}
 }
 
 // Given a reflect.Value, returns the underlying interpreter value.
